@@ -260,6 +260,41 @@ func runC17(r *Run) {
 					why = "cannot prove " + map[bool]string{true: "port <= 65535", false: "0 <= port"}[lo.OK]
 				}
 			}
+			if !ok {
+				// the value stored into the field, on every path to this return, under the path's own conditions
+				// (the range check may sit on a local before the store, or in a normalised helper)
+				portStores := indexStores(parse, portF)
+				all, any := true, false
+				q := &PathQuery{P: p, Fn: parse}
+				q.Step = func(in ssa.Instruction, deferred bool, st uint64, c *PathCtx) (uint64, bool) {
+					if i, isSt := portStores.idx[in]; isSt {
+						return uint64(i), false
+					}
+					return st, false
+				}
+				q.AtReturn = func(r2 *ssa.Return, st uint64, c *PathCtx) {
+					if r2 != ret || c.NilState(r2.Results[idx]) == -1 {
+						return
+					}
+					any = true
+					if st == 0 {
+						all = false
+						return
+					}
+					v := c.Resolve(portStores.stores[st-1].Val)
+					conds := c.PathConds()
+					lo := pr.Prove(ret, Goal{X: nil, Y: v, C: 0, assume: conds})
+					hi := pr.Prove(ret, Goal{X: v, YL: &lin{zeroTerm, 65535}, C: 0, assume: conds})
+					if !lo.OK || !hi.OK {
+						all = false
+						why = "cannot prove " + map[bool]string{true: "port <= 65535", false: "0 <= port"}[lo.OK] + " for the stored value " + exprDepth(v, 0)
+					}
+				}
+				q.Run()
+				if any && all && !q.Exhausted {
+					ok = true
+				}
+			}
 			pt.Instance(fmt.Sprintf("success return %d", n), true, map[string]interface{}{"return": p.pos(instrPos(ret)), "proved": ok})
 			pt.Obligation(ok, false)
 			if !ok {
@@ -309,7 +344,7 @@ func runC17(r *Run) {
 			}
 			all := true
 			for _, ret := range returnsOf(parse) {
-				if isNilConst(deref(ret.Results[idx])) && !nonEmpty.Dominates(ret.Block()) {
+				if isNilConst(deref(ret.Results[idx])) && !blockDominates(nonEmpty, ret.Block()) {
 					all = false
 				}
 			}
@@ -459,7 +494,7 @@ func checkParsePerScheme(r *Run, rc *RuleCtx, parse *ssa.Function, uc *uriConsts
 			if i == 0 {
 				finals["unset"] = true
 			} else {
-				v := protoStores.stores[i-1].Val
+				v := c.Resolve(protoStores.stores[i-1].Val)
 				if cv, ok := constInt(v); ok {
 					finals[fmt.Sprintf("const %d", cv)] = true
 				} else if e, ok := deref(v).(*ssa.Extract); ok {
@@ -528,19 +563,14 @@ func checkParseProto(r *Run, rc *RuleCtx, uc *uriConsts) {
 	}
 	r.Analysed(fn)
 	idx := errorResultIndex(fn)
-	rejects := func(b *ssa.BasicBlock) bool {
-		n := 0
-		for x := range blockReach(b) {
-			if ret, ok := x.Instrs[len(x.Instrs)-1].(*ssa.Return); ok {
-				c := &PathCtx{K: newKeyer(), assign: map[string]bool{}, phiSel: map[*ssa.Phi]ssa.Value{}, P: p}
-				if c.NilState(ret.Results[idx]) != -1 {
-					return false
-				}
-				n++
-			}
-		}
-		return n > 0
+	// the conditions of interest, by shape; what they imply is decided per path below
+	type condOfInterest struct {
+		what string
+		key  string
+		pol  bool
 	}
+	kk := newKeyer()
+	var conds []condOfInterest
 	var gotMulti, gotUnknown, gotExtra, gotKey bool
 	newProto := p.Fn("NewProtoType")
 	eachInstr(fn, func(b *ssa.BasicBlock, i int, in ssa.Instruction) {
@@ -557,24 +587,51 @@ func checkParseProto(r *Run, rc *RuleCtx, uc *uriConsts) {
 		if !ok {
 			return
 		}
-		// len(qArgs) > 1 (possibly after err != nil ||)
+		key, pol := kk.condKey(iff.Cond)
+		// len(qArgs) > 1 / > 0
 		if lc, ok := bo.X.(*ssa.Call); ok && isBuiltinCall(lc, "len") && bo.Op == token.GTR {
 			if n, ok := constInt(bo.Y); ok {
-				if n == 1 && rejects(b.Succs[0]) {
-					gotMulti = true
+				if n == 1 {
+					conds = append(conds, condOfInterest{"multi", key, pol})
 				}
-				if n == 0 && rejects(b.Succs[0]) {
-					gotExtra = true
+				if n == 0 {
+					conds = append(conds, condOfInterest{"extra", key, pol})
 				}
 			}
 		}
 		// NewProtoType(x) == Unknown
-		if cc, ok := stripConvs(bo.X).(*ssa.Call); ok && newProto != nil && callsFn(cc, newProto) && bo.Op == token.EQL {
-			if n, ok := constInt(bo.Y); ok && n == uc.Proto[""] && rejects(b.Succs[0]) {
-				gotUnknown = true
+		if cc, ok := stripConvs(bo.X).(*ssa.Call); ok && newProto != nil && callsFn(cc, newProto) && (bo.Op == token.EQL || bo.Op == token.NEQ) {
+			if n, ok := constInt(bo.Y); ok && n == uc.Proto[""] {
+				conds = append(conds, condOfInterest{"unknown", key, pol == (bo.Op == token.EQL)})
+				if bo.Op == token.NEQ {
+					// key/pol describe "!= Unknown"; the condition of interest is its negation
+					conds[len(conds)-1].pol = !pol
+				} else {
+					conds[len(conds)-1].pol = pol
+				}
 			}
 		}
 	})
+	seen := map[string]bool{}
+	bad := map[string]bool{}
+	q := &PathQuery{P: p, Fn: fn, K: kk}
+	q.AtReturn = func(ret *ssa.Return, st uint64, c *PathCtx) {
+		ns := c.NilState(ret.Results[idx])
+		for _, ci := range conds {
+			v, known := c.Known(ci.key)
+			if !known || v != ci.pol {
+				continue
+			}
+			seen[ci.what] = true
+			if ns != -1 {
+				bad[ci.what] = true
+			}
+		}
+	}
+	q.Run()
+	gotMulti = seen["multi"] && !bad["multi"]
+	gotExtra = seen["extra"] && !bad["extra"]
+	gotUnknown = seen["unknown"] && !bad["unknown"]
 	for n, ok := range map[string]bool{"more than one query key rejected": gotMulti, "unknown transport value rejected": gotUnknown, "keys other than transport rejected": gotExtra, "the key is \"transport\"": gotKey} {
 		rc.Instance("parseProto|"+n, true, nil)
 		if !ok {
@@ -706,7 +763,7 @@ func checkDialTable(r *Run, rc *RuleCtx, dial *ssa.Function, uc *uriConsts, sche
 				}
 				if newClient != nil && callsFn(cc, newClient) {
 					conn := c.Resolve(cc.Call.Args[0])
-					kind := connKind(conn)
+					kind := connKindCtx(c, conn)
 					o := ""
 					switch {
 					case kind == "raw" && st&dUDP != 0 && st&(dTCP|dTLS|dDTLS) == 0:
@@ -804,8 +861,13 @@ func checkDialTable(r *Run, rc *RuleCtx, dial *ssa.Function, uc *uriConsts, sche
 }
 
 // connKind: where the connection handed to NewClient comes from.
-func connKind(v ssa.Value) string {
-	for i := 0; i < 6; i++ {
+func connKind(v ssa.Value) string { return connKindCtx(nil, v) }
+
+func connKindCtx(c *PathCtx, v ssa.Value) string {
+	for i := 0; i < 8; i++ {
+		if c != nil {
+			v = c.Resolve(v)
+		}
 		switch x := v.(type) {
 		case *ssa.MakeInterface:
 			v = x.X
